@@ -126,6 +126,22 @@ pub unsafe extern "C" fn pthread_join(th: libc::pthread_t, ret_val: *mut *mut c_
     real(th, ret_val)
 }
 
+#[no_mangle]
+pub unsafe extern "C" fn ftruncate(fd: c_int, len: i64) -> c_int {
+    match sim::hook_ftruncate(fd, len) {
+        Some(Ok(())) => 0,
+        Some(Err(e)) => {
+            *libc::__errno_location() = e;
+            -1
+        }
+        None => ret(sim::raw_syscall6(libc::SYS_ftruncate, fd as i64, len, 0, 0, 0, 0)) as c_int,
+    }
+}
+#[no_mangle]
+pub unsafe extern "C" fn ftruncate64(fd: c_int, len: i64) -> c_int {
+    ftruncate(fd, len)
+}
+
 /// sleeping is simulated: the clock jumps by the requested duration and the thread yields
 #[no_mangle]
 pub unsafe extern "C" fn nanosleep(req: *const libc::timespec, rem: *mut libc::timespec) -> c_int {
